@@ -26,6 +26,7 @@ import DafRel.Lemmas.Build
 import DafRel.Lemmas.ConformSound
 import DafRel.Lemmas.SqlTransfer
 import DafRel.Bridge.Tables
+import DafRel.Bridge.Dispatch
 import DafRel.Bridge.RelOps
 
 namespace DafRel.Props.C15
@@ -120,6 +121,27 @@ theorem materialize_locked_adds_nothing_sql (st : Store) (fuel : Nat) (t : Rel) 
   · cases h
   · simp [hm, pure, Except.pure] at h
     exact h.symm
+
+/-- **A database engine never back-tracks**: whatever the operation and the tree, `backtrack_unary` of a SQL engine
+hands the tree back, so nothing is ever inserted upstream of anything - locked or not - inside a database.  The model
+fact (first conjunct) stands for the code through the second: on this run `sql.Engine` inherits `backtrack_unary` from the
+base class, whose body is `return tree, False, ...` (re-read from the live classes). -/
+theorem sql_engine_never_backtracks (st : Store) (fuel : Nat) (op : AnyOp) (tree : Rel) (pref : Engine)
+    (hk : tree.engine.kind = .sql) :
+    backtrack st (fuel+1) op tree pref = .ok (.same, false) ∧
+    ("sql.Engine", "backtrack_unary", "_engine.Engine") ∈ Gen.dispatch ∧
+    ("_engine.Engine", "backtrack_unary:body", "return tree, False") ∈ Gen.dispatch := by
+  refine ⟨?_, ?_, ?_⟩
+  · rw [backtrack.eq_def]; simp only [hk]
+  · rw [Bridge.dispatch_eq]; decide
+  · rw [Bridge.dispatch_eq]; decide
+
+/-- Tie to the source: which class defines each engine method the model dispatches on. -/
+theorem bridge_engine_dispatch : Gen.dispatch.length = 13 ∧
+    (Gen.dispatch.filter (fun r => r.1 == "sql.Engine" && r.2.2 == "_engine.Engine")).map (·.2.1) = ["backtrack_unary"] ∧
+    (Gen.dispatch.filter (fun r => r.1 == "iteration.Engine" && r.2.2 != "_engine.Engine")).map (·.2.1) =
+      ["backtrack_unary"] := by
+  rw [Bridge.dispatch_eq]; decide
 
 /-- Back-tracking never inserts anything upstream of a locked node (leaf or materialization). -/
 theorem backtrack_stops_at_locked (st : Store) (fuel : Nat) (op : AnyOp) (tree : Rel) (pref : Engine)
